@@ -9,6 +9,7 @@ func init() { runners["c02"] = runC02 }
 type univ struct {
 	buckets []string
 	keys    []string
+	rkeys   []string // keys that are only read, deleted or copied from: never written, so they read as NoSuchKey
 	bodies  [][]byte
 }
 
@@ -24,6 +25,9 @@ func univFor(kind string) univ {
 	} else {
 		// fs backends: conflict-free key domain (no key is a path-prefix of another)
 		u.keys = []string{"a/b", "a/c", "d", "e/f/g", "a_b"} // a_b: distinct from a/b however a backend flattens names
+		// ... but a key below an object (d/x, a/b/c), or one that is a directory of other keys (a, e/f), can be
+		// asked for: it was never written
+		u.rkeys = []string{"d/x", "a/b/c", "a", "e/f", "d/x/y"}
 	}
 	return u
 }
@@ -32,6 +36,10 @@ func univFor(kind string) univ {
 func c02RandomOp(s *Sess, u univ, rng *Rng) {
 	b := u.buckets[rng.Intn(len(u.buckets))]
 	k := u.keys[rng.Intn(len(u.keys))]
+	rk := k // for operations that do not write
+	if len(u.rkeys) > 0 && rng.Intn(4) == 0 {
+		rk = u.rkeys[rng.Intn(len(u.rkeys))]
+	}
 	single := isSingle(s.kind)
 	switch w := rng.Intn(100); {
 	case w < 8:
@@ -60,15 +68,19 @@ func c02RandomOp(s *Sess, u univ, rng *Rng) {
 		}
 		s.Put(b, k, u.bodies[rng.Intn(len(u.bodies))], m)
 	case w < 57:
-		s.Get(b, k, "")
+		s.Get(b, rk, "")
 	case w < 62:
-		s.Head(b, k, "")
+		s.Head(b, rk, "")
 	case w < 74:
-		s.Delete(b, k)
+		s.Delete(b, rk)
 	case w < 80:
 		n := 1 + rng.Intn(3)
 		var ks []KV
 		for i := 0; i < n; i++ {
+			if len(u.rkeys) > 0 && rng.Intn(4) == 0 {
+				ks = append(ks, KV{K: u.rkeys[rng.Intn(len(u.rkeys))]})
+				continue
+			}
 			ks = append(ks, KV{K: u.keys[rng.Intn(len(u.keys))]})
 		}
 		s.MultiDelete(b, ks)
@@ -77,6 +89,8 @@ func c02RandomOp(s *Sess, u univ, rng *Rng) {
 		sk := u.keys[rng.Intn(len(u.keys))]
 		if rng.Intn(5) == 0 { // self copy
 			sb, sk = b, k
+		} else if len(u.rkeys) > 0 && rng.Intn(5) == 0 {
+			sk = u.rkeys[rng.Intn(len(u.rkeys))]
 		}
 		s.Copy(sb, sk, b, k)
 	default:
@@ -90,6 +104,10 @@ func c02Probe(s *Sess, u univ) {
 		s.List(ListReq{Bucket: b, MaxKeys: -1})
 		for _, k := range u.keys {
 			s.Get(b, k, "")
+		}
+		for _, k := range u.rkeys {
+			s.Get(b, k, "")
+			s.Head(b, k, "")
 		}
 	}
 }
